@@ -391,8 +391,10 @@ class C09(Property):
             n = rng.choice([None, 2, 3, 5, 100, 101])
             loops = rng.choice([1, 2, -1, 3])
             cache = rng.choice([["b", 0], ["b", 1], ["n", 1], ["n", 2], ["n", 3], ["n", 4], ["n", 5], ["n", 99], ["n", 100], ["n", 101]])
-            return Case(f"decision {'none' if n is None else f'some {n}'} {loops} {toks(cache)}",
-                        {"n": n, "loops": loops, "cache": cache}, "decision", True)
+            post = rng.random() < 0.4
+            return Case(f"decision {'postponed ' if post else ''}{'none' if n is None else f'some {n}'} {loops} {toks(cache)}",
+                        {"n": n, "loops": loops, "cache": cache, "postponed": post},
+                        "decision-postponed" if post else "decision", True)
         n = rng.choice([2, 3, 5])
         rep = rng.choice([1, 2, -1])
         cache = rng.choice([["b", 0], ["b", 1], ["n", n - 1], ["n", n], ["n", n + 1], ["n", 100]])
@@ -416,8 +418,11 @@ class C09(Property):
         if op == "decision":
             n, loops, cache = d["n"], d["loops"], d["cache"]
             cval = bool(cache[1]) if cache[0] == "b" else cache[1]
-            r = TR(n, 7, (1, 1), stream=3)
-            it = RenderIterator(r, loops=loops, cache=cval)
+            r = TR(n, 7, (1, 1), stream=3, postponed=bool(d.get("postponed")))
+            try:
+                it = RenderIterator(r, loops=loops, cache=cval)
+            except Exception as e:  # noqa: BLE001
+                return "err " + type(e).__name__
             direct = bool(it._cached)
             it.close()
             # what `_animate_` hands to the iterator it creates
